@@ -7,6 +7,7 @@ import (
 	"fmt"
 	"os"
 	"path/filepath"
+	"sort"
 	"strings"
 	"time"
 
@@ -240,7 +241,7 @@ func metaFilename(filename string) string {
 
 func (fs *filestore) Walk(ctx context.Context, bucket string, cb func(ctx context.Context, filename string, fInfo os.FileInfo) error) error {
 	root := filepath.Join(fs.gcsDir, bucket)
-	return filepath.Walk(root, func(path string, fInfo os.FileInfo, err error) error {
+	return walkBytewise(root, func(path string, fInfo os.FileInfo, err error) error {
 		if strings.HasSuffix(path, metaExtention) {
 			// Ignore metadata files
 			return nil
@@ -260,4 +261,53 @@ func (fs *filestore) Walk(ctx context.Context, bucket string, cb func(ctx contex
 		}
 		return nil
 	})
+}
+
+// walkBytewise is filepath.Walk, except that the entries of a directory are visited in the
+// bytewise order of the object names they stand for: a directory sorts as its name followed by
+// the path separator, so that "a.txt" is visited before the contents of "a/".
+func walkBytewise(root string, fn filepath.WalkFunc) error {
+	info, err := os.Lstat(root)
+	if err != nil {
+		err = fn(root, nil, err)
+	} else {
+		err = walkBytewiseDir(root, info, fn)
+	}
+	if err == filepath.SkipDir {
+		return nil
+	}
+	return err
+}
+
+func walkBytewiseDir(path string, info os.FileInfo, fn filepath.WalkFunc) error {
+	if !info.IsDir() {
+		return fn(path, info, nil)
+	}
+	entries, err := os.ReadDir(path)
+	if err1 := fn(path, info, err); err != nil || err1 != nil {
+		return err1
+	}
+	sortKey := func(e os.DirEntry) string {
+		if e.IsDir() {
+			return e.Name() + string(os.PathSeparator)
+		}
+		return e.Name()
+	}
+	sort.Slice(entries, func(i, j int) bool { return sortKey(entries[i]) < sortKey(entries[j]) })
+	for _, e := range entries {
+		filename := filepath.Join(path, e.Name())
+		fInfo, err := e.Info()
+		if err != nil {
+			if err := fn(filename, fInfo, err); err != nil && err != filepath.SkipDir {
+				return err
+			}
+			continue
+		}
+		if err := walkBytewiseDir(filename, fInfo, fn); err != nil {
+			if !fInfo.IsDir() || err != filepath.SkipDir {
+				return err
+			}
+		}
+	}
+	return nil
 }
